@@ -183,6 +183,9 @@ func (fab *FuelAccountBalance) Calculate() error {
 	fab.Subtotal = num.MakeAmount(0, FuelAccountTotalsPrecision)
 
 	for i, l := range fab.Lines {
+		if l == nil {
+			continue
+		}
 		l.Index = i + 1
 		// Normalise amounts to the expected precision
 		l.Quantity = l.Quantity.RescaleUp(FuelAccountPriceMinimumPrecision)
@@ -192,6 +195,9 @@ func (fab *FuelAccountBalance) Calculate() error {
 		}
 
 		for _, t := range l.Taxes {
+			if t == nil {
+				continue
+			}
 			// Always calculate totals for each tax
 			if t.Percent != nil {
 				t.Amount = t.Percent.Of(l.Total)
